@@ -133,8 +133,10 @@ func CoordinatesHint(hint *Hint) int {
 	usedY := 0
 	lines := strings.Split(text, term.ClearLineAfter)
 
-	for i, line := range lines {
-		x, y := strutil.LineSpan([]rune(line), i, 0)
+	// Each section starts on a row of its own, which is counted
+	// below with its last row: not as a line after the first.
+	for _, line := range lines {
+		x, y := strutil.LineSpan([]rune(line), 0, 0)
 		if x != 0 {
 			y++
 		}
